@@ -120,8 +120,9 @@ def create(req, sock, client, server, cfg):
     # add the headers to the environ
     for hdr_name, hdr_value in req.headers:
         if hdr_name == "EXPECT":
-            # handle expect
-            if hdr_value.lower() == "100-continue":
+            # handle expect (a 1xx response must not be sent to an
+            # HTTP/1.0 client, which would take it for the final one)
+            if hdr_value.lower() == "100-continue" and req.version >= (1, 1):
                 sock.send(b"HTTP/1.1 100 Continue\r\n\r\n")
         elif hdr_name == 'HOST':
             host = hdr_value
